@@ -166,7 +166,30 @@ pub fn exhaustive(ctx: &Ctx, rep: &mut Report) {
         }
     });
     rep.merge(r);
+    // LONG batches: lengths around 2^8, 2^15, 2^16 and 2^17 (an index or a count kept in a
+    // narrow integer wraps there), with and without zeros
+    let longs: Vec<usize> = vec![255, 256, 257, 1024, 4096, 32767, 32768, 32769, 65535, 65536, 65537, 70000, 131071, 131072, 131073, 200_000];
+    let r = par_for(longs.len() * 2, ncpu(), |job, rep| {
+        let len = longs[job / 2];
+        let mut rng = crate::util::rng_for(ctx.seed, &format!("c12-long-batch-{}", job));
+        let v: Vec<i16> = (0..len).map(|_| if job % 2 == 1 && rng.gen_bool(0.01) { 0 } else { rng.gen_range(1..Q as i16) }).collect();
+        rep.evaluations += 1;
+        let vv = v.clone();
+        match monitored(move || vh::felt_batch_inv(&vv)) {
+            Err(p) => rep.violation(&format!("panic:batch_inv@{}", short_loc(&p.location)), format!("batch of {} elements: {}", len, p.message), json!({"op": "long-batch", "len": len, "job": job, "vseed": ctx.seed})),
+            Ok(out) => {
+                let bad = if out.len() != v.len() { Some(0) } else { v.iter().zip(out.iter()).position(|(&a, &i)| if a == 0 { i != 0 } else { !((0..Q).contains(&(i as i64)) && (a as i64 * i as i64) % Q == 1) }) };
+                if let Some(pos) = bad {
+                    rep.violation("batch_inv:wrong", format!("batch inverse of {} elements is wrong at position {} (element {}, result {:?})", len, pos, v[pos], out.get(pos)), json!({"op": "long-batch", "len": len, "job": job, "vseed": ctx.seed}));
+                }
+            }
+        }
+        rep.count("long_batches", 1);
+        rep.nontrivial(format!("long-batch|{}|{}", len, job % 2).as_bytes());
+    });
+    rep.merge(r);
     let _ = &mut rng;
+    rep.require("long_batches", 32);
     rep.require("new_values", 65536);
     rep.require("unary_residues", Q as u64);
     rep.require("binary_pairs", (Q * Q) as u64);
